@@ -9,7 +9,7 @@ from checks import C12
 LEVEL = "model_checking"
 PUNCT = ["\x00", "\x01", "\x7f", "\xff", '"', "'", "\\", "(", ")", "[", "]", ",", ";", ":", ".", "#", "$", "/", "*", "+", "-", "\r", "\t", "%"]
 LENGTHS = [127, 128, 255, 256, 511, 512, 513, 1023, 1024, 1025, 4095, 4096, 4097, 65537]
-DEPTHS = [127, 128, 129, 130, 1000]
+DEPTHS = [127, 128, 129, 130, 1000, 100000]
 ADDRS = ["0", "1", "-1", "0x7fffffff", "0x80000000", "0xfffffff0", "0xffffffff", "0x100000000"]
 CPU_S = 2           # CPU seconds per run; a normal run takes ~10 ms
 
@@ -58,6 +58,20 @@ def blowups(name, lines, files, first_line, lengths):
                            "\n".join(lines[:i] + ["".join(toks[:k] + [f(L)] + toks[k + 1:])] + lines[i + 1:]) + "\n", files)
 
 
+EXTRA_SEEDS = [
+    ("comments", [".msp430", ".define A 1 ; one", ".define B(x) (x+1) // two", ".macro M(a)", "  .db a ; three", "  .db a + 1 // four", ".endm",
+                  ".org 0x100", ".db A, B(2) ; five", "M(5) /* six */", ".db \"s;//\", ';' ; seven"]),
+    ("listing", [".msp430", ".org 0x100", ".list", "mov.w #1, r5", ".nolist", ".db 1", ".list", ".db 2"]),
+]
+
+
+def prefixes(name, lines, files):
+    """the file cut off after every byte (the last line then has no newline, constructs stay open)"""
+    text = "\n".join(lines) + "\n"
+    for i in range(len(text)):
+        yield ("cut|%s|%d" % (name, i), text[:i], files)
+
+
 def body_blowups(lengths):
     for L in lengths:
         yield ("len|macro-body-line|%d" % L, ".msp430\n.macro BIG\n.db %s\n.endm\n.org 0x100\nBIG\n" % ", ".join(["1"] * (L // 3 + 1)), {})
@@ -75,8 +89,12 @@ def body_blowups(lengths):
 
 
 def counts(quick):
+    from checks import C06
     for c in cpus.cpu_list():
         ls = corpus.lines(c["name"])
+        if not ls:
+            # no corpus for this CPU: take instruction lines from what its decoder prints
+            ls = [t for t in C06.decoder_templates(c["index"], 40) if re.match(r"^[A-Za-z]", t)]
         if not ls:
             continue
         seen = []
@@ -112,6 +130,19 @@ def counts(quick):
 
 def nesting(depths):
     for d in depths:
+        if d > 10000:
+            # only the constructs whose text stays small at this depth
+            yield ("nest|parens|%d" % d, ".msp430\n.org 0x100\n.dw %s1%s\n" % ("(" * d, ")" * d), {})
+            yield ("nest|parens-open|%d" % d, ".msp430\n.org 0x100\n.dw %s1\n" % ("(" * d), {})
+            yield ("nest|unary-minus|%d" % d, ".msp430\n.org 0x100\n.dw %s1\n" % ("-" * d), {})
+            yield ("nest|unary-not|%d" % d, ".msp430\n.org 0x100\n.dw %s1\n" % ("~" * d), {})
+            yield ("nest|binary-chain|%d" % d, ".msp430\n.org 0x100\n.dw %s1\n" % ("1+" * d), {})
+            yield ("nest|if|%d" % d, ".msp430\n.org 0x100\n%s.db 1\n%s" % (".if 1\n" * d, ".endif\n" * d), {})
+            yield ("nest|if-untaken|%d" % d, ".msp430\n.org 0x100\n%s.db 1\n%s.db 2\n" % (".if 0\n" * d, ".endif\n" * d), {})
+            yield ("nest|if-unclosed|%d" % d, ".msp430\n.org 0x100\n%s.db 1\n" % (".if 1\n" * d), {})
+            yield ("nest|repeat|%d" % d, ".msp430\n.org 0x100\n%s.db 1\n%s" % (".repeat 1\n" * d, ".endr\n" * d), {})
+            yield ("nest|scope|%d" % d, ".msp430\n.org 0x100\n%s.db 1\n%s" % (".scope\n" * d, ".ends\n" * d), {})
+            continue
         yield ("nest|parens|%d" % d, ".msp430\n.org 0x100\n.dw %s1%s\n" % ("(" * d, ")" * d), {})
         yield ("nest|parens-open|%d" % d, ".msp430\n.org 0x100\n.dw %s1\n" % ("(" * d), {})
         yield ("nest|unary-minus|%d" % d, ".msp430\n.org 0x100\n.dw %s1\n" % ("-" * d), {})
@@ -299,6 +330,10 @@ def cases(ctx, quick):
     fam = {}
     def add(f, it):
         fam.setdefault(f, []).extend(it)
+    for name, lines in C12.GENERIC + EXTRA_SEEDS:
+        add("cut-off", prefixes(name, lines, C12.GENERIC_FILES))
+    for name, lines in EXTRA_SEEDS:
+        add("token-mutation", token_mutations(name, lines, {}, 1))
     for name, lines in C12.GENERIC:
         add("token-mutation", token_mutations(name, lines, C12.GENERIC_FILES, 1))
         add("length", blowups(name, lines, C12.GENERIC_FILES, 1, LENGTHS[::3] + [65537] if quick else LENGTHS))
